@@ -17,7 +17,7 @@ import itertools
 
 from .progdb import AnalysisError, ClassInfo, FunctionInfo, ModuleInfo
 from .terms import (
-    App, Const, EnumM, Num, Star, Sym, Top, Tup, V, FALSE, TRUE,
+    App, Const, EnumM, Num, Star, Sym, Top, Tup, Vec, V, FALSE, TRUE,
     add, compare, conj, const_of, disj, div, is_boolish, is_const, ite, mk_num, mul, neg, negate,
     powv, sub, to_poly, has_top,
 )
@@ -277,6 +277,8 @@ class Evaluator:
             return Const(len(v.items) > 0) if not v.unknown else App("truthy", (Sym("dict#%d" % id(v)),))
         if is_boolish(v):
             return v
+        if isinstance(v, Sym) and (v.tags & {"rng", "object", "callable", "positive", "nonempty_str", "fresh_rng"}):
+            return TRUE
         if isinstance(v, V):
             p = to_poly(v)
             if p is not None and p.is_const():
@@ -989,6 +991,12 @@ class Evaluator:
             else:
                 base.unknown = True
             return
+        if isinstance(base, Tup) and is_const(idx) and isinstance(const_of(idx), int) and -len(base.items) <= const_of(idx) < len(base.items) \
+                and not any(isinstance(i, Star) for i in base.items) and isinstance(v, V):
+            items = list(base.items)
+            items[const_of(idx)] = v
+            self.rebind(t.value, type(base)(items), fr)
+            return
         if isinstance(base, V):
             root = storage_root(base)
             self.event("store", root=root, base=base, index=idx, value=v, node=t, target=ast.unparse(t),
@@ -1126,6 +1134,11 @@ class Evaluator:
                 return Lst(a.items + b.items)
         if isinstance(a, Const) and isinstance(a.value, str) and isinstance(b, Const) and isinstance(b.value, str) and op == "Add":
             return Const(a.value + b.value)
+        ta, tb = _num_tuple(a), _num_tuple(b)
+        if (ta or tb) and isinstance(a, V) and isinstance(b, V) and (ta or to_poly(a) is not None) and (tb or to_poly(b) is not None):
+            n = len(a.items) if ta else len(b.items)
+            if not (ta and tb and len(a.items) != len(b.items)):
+                return Vec([self.binop(op, a.items[i] if ta else a, b.items[i] if tb else b, node) for i in range(n)])
         if isinstance(a, V) and isinstance(b, Lst):
             b = self.lib.as_v(self, b)
         elif isinstance(b, V) and isinstance(a, Lst):
@@ -1167,36 +1180,38 @@ class Evaluator:
         return App("binop:" + op, (a, b))
 
     def ex_BoolOp(self, e, fr):
+        """Python short-circuit semantics: `a or b` is a if truthy(a) else b (values, not just truth)."""
         is_and = isinstance(e.op, ast.And)
-        vals = []
-        last = None
-        for sub_e in e.values:
-            v = self.eval(sub_e, fr)
-            last = v
+
+        def rec(i):
+            v = self.eval(e.values[i], fr)
+            if i == len(e.values) - 1:
+                return v
             t = self.truth(v)
             if isinstance(t, Const):
-                if is_and and not t.value:
-                    return v if not vals else (FALSE if all(is_boolish(x) for x in vals) else v)
-                if not is_and and t.value:
-                    if not vals:
-                        return v
-                    if all(is_boolish(x) for x in vals) and is_boolish(v):
-                        return TRUE
-                    # `x or default`: value is x when truthy else default
-                    return ite(disj([self.truth(x) for x in vals]), vals[0], v) if len(vals) == 1 else Top("or-chain")
-                continue
-            vals.append(v)
-        if not vals:
-            return last
-        if all(is_boolish(self.truth(x)) and is_boolish(x) for x in vals):
-            return conj(vals) if is_and else disj(vals)
-        if len(vals) == 1 and last is vals[0]:
-            return vals[0]
-        if not is_and and len(vals) == 1:
-            # `a or b` with unknown a
-            return ite(self.truth(vals[0]), vals[0], last)
-        ts = [self.truth(x) for x in vals]
-        return conj(ts) if is_and else disj(ts)
+                if bool(t.value) != is_and:
+                    return v          # decided here: falsy for `and`, truthy for `or`
+                return rec(i + 1)
+            k = self.known_truth(t)
+            if k is not None:
+                return v if k != is_and else rec(i + 1)
+            if not all(self.pure_expr(x) for x in e.values[i + 1:]):
+                if self.decide(t, e) != is_and:
+                    return v
+                return rec(i + 1)
+            saved = list(self.pc)
+            self.pc.append((t, is_and))
+            rest = rec(i + 1)
+            self.pc = saved
+            if is_boolish(v) and (is_boolish(rest) or (isinstance(rest, Const) and isinstance(rest.value, bool))):
+                return conj([v, rest]) if is_and else disj([v, rest])
+            if isinstance(v, V) and isinstance(rest, V):
+                return ite(t, rest, v) if is_and else ite(t, v, rest)
+            if self.decide(t, e) != is_and:
+                return v
+            return rest
+
+        return rec(0)
 
     def ex_Compare(self, e, fr):
         left = self.eval(e.left, fr)
@@ -1242,6 +1257,10 @@ class Evaluator:
                     if m is not None:
                         r = self.truth(self.call_function(FuncV(m, None, x, m.cls), [y], {}, node))
                         return r if sym == "==" else negate(r)
+        if _num_tuple(a) and isinstance(b, V) and to_poly(b) is not None:
+            return Vec([compare(sym, x, b) for x in a.items])
+        if _num_tuple(b) and isinstance(a, V) and to_poly(a) is not None:
+            return Vec([compare(sym, a, x) for x in b.items])
         if not (isinstance(a, V) and isinstance(b, V)):
             if sym in ("==", "!="):
                 r = a is b
@@ -1412,6 +1431,10 @@ def storage_root(v):
             return None
         return None
     return None
+
+
+def _num_tuple(v):
+    return isinstance(v, Vec) and len(v.items) > 0 and all(to_poly(i) is not None and not isinstance(i, Star) for i in v.items)
 
 
 def _chain_base(v):
